@@ -3,6 +3,7 @@ package props
 import (
 	"fmt"
 	"go/token"
+	"strings"
 
 	"golang.org/x/tools/go/ssa"
 
@@ -95,7 +96,92 @@ func runC22(c *eng.Ctx) {
 			c.Before("MONO-ts", "clock-read-under-lock", fn, eng.CallTo("sync.RWMutex).Lock"), now, "the default timestamp is taken after the buffer lock is held (two appenders cannot take timestamps in one order and append in the other)")
 		}
 	}
-	c.Expect("MONO-ts", 5)
+	// the time recorded as the buffer's stop time is the time of the entry just appended: every value the entry's
+	// timestamp can take (own, clock, previous+1) has its time.Time counterpart in the values of the stop time
+	if fn := c.NeedFunc("weed/util/log_buffer", "(*LogBuffer).AddToBuffer"); fn != nil {
+		ents := eng.Find(fn, eng.StoreToField("LogEntry.TsNs"))
+		stops := eng.Find(fn, eng.StoreToField("LogBuffer.stopTime"))
+		if len(ents) != 1 || len(stops) != 1 {
+			c.Undecided("MONO-ts", eng.FuncName(fn)+" stop-time", fn.Pos(), "entry timestamp / stop time stores not found")
+		} else {
+			tsVals := eng.Resolve(ents[0].(*ssa.Store).Val)
+			tVals := eng.Resolve(stops[0].(*ssa.Store).Val)
+			okPair := len(tsVals) > 0
+			missing := ""
+			for _, tv := range tsVals {
+				found := false
+				for _, t := range tVals {
+					call, isCall := t.(*ssa.Call)
+					if !isCall {
+						continue
+					}
+					// ts = time.Unix(0, tv)
+					if eng.CalleeIs(call, "time.Unix") && (call.Call.Args[1] == tv || eng.SameExpr(call.Call.Args[1], tv)) {
+						found = true
+					}
+					// tv = ts.UnixNano() with ts = time.Now()
+					if eng.CalleeIs(call, "time.Now") {
+						if u, isU := tv.(*ssa.Call); isU && eng.CalleeIs(u, "time.Time).UnixNano") && eng.Mentions(u.Call.Args[0], 4, func(x ssa.Value) bool { return x == ssa.Value(call) }) {
+							found = true
+						}
+					}
+				}
+				if !found {
+					okPair = false
+					missing = tv.String()
+				}
+			}
+			c.Ob("MONO-ts", eng.FuncName(fn)+" stop-time-is-entry-time", okPair, stops[0].Pos(), "the buffer's stop time is the time of the appended entry for every value its timestamp can take (own, clock, previous+1)"+ifs(missing != "", "; no counterpart for "+missing))
+		}
+	}
+	c.Expect("MONO-ts", 6)
+
+	// ALIAS-sealed: the memory handed back for the new current buffer is the evicted buffer's, read before the
+	// retained buffers are shifted over it (read afterwards it is the array of the oldest retained buffer, which a
+	// lagging reader may still be served from)
+	if fn := c.NeedFunc("weed/util/log_buffer", "(*SealedBuffers).SealBuffer"); fn != nil {
+		okAlias := true
+		why := ""
+		sts := eng.Find(fn, eng.StoreToField("MemBuffer.buf"))
+		for _, r := range eng.Find(fn, eng.IsReturn) {
+			ld, isLoad := r.(*ssa.Return).Results[0].(*ssa.UnOp)
+			if !isLoad || !eng.IsField(ld, "MemBuffer.buf") {
+				okAlias, why = false, "the returned buffer is not a retained buffer's memory"
+				continue
+			}
+			for _, st := range sts {
+				if !eng.Dominates(ld, st) {
+					okAlias, why = false, "the returned buffer is read after a retained buffer's memory was reassigned"
+				}
+			}
+		}
+		c.Ob("ALIAS-sealed", eng.FuncName(fn)+" evicted-memory-read-before-shift", okAlias && len(sts) >= 2, fn.Pos(), "the recycled memory is read from the evicted buffer before the retained buffers are shifted"+ifs(why != "", ": "+why))
+		// the sealed buffer stores what it was given
+		okSeal := false
+		for _, st := range sts {
+			if eng.IsParamLike(st.(*ssa.Store).Val, "buf") {
+				okSeal = true
+			}
+		}
+		c.Ob("ALIAS-sealed", eng.FuncName(fn)+" seals-given-buffer", okSeal, fn.Pos(), "the newest retained buffer is the buffer being sealed")
+	}
+	c.Expect("ALIAS-sealed", 2)
+
+	// a buffer that is only kept in memory (no flush function) records what it dropped from the current buffer as
+	// flushed: that is what lets a reader behind the retained buffers learn that it must resume elsewhere
+	if fn := c.NeedFunc("weed/util/log_buffer", "(*LogBuffer).copyToFlush"); fn != nil {
+		seal := eng.Find(fn, eng.PlainCallTo("log_buffer.SealedBuffers).SealBuffer"))
+		handed := func(in ssa.Instruction) bool {
+			al, ok := in.(*ssa.Alloc)
+			return ok && strings.HasSuffix(eng.TypeName(eng.Deref(al.Type())), "dataToFlush")
+		}
+		if len(seal) != 1 {
+			c.Undecided("ORDER-read", eng.FuncName(fn), fn.Pos(), "SealBuffer call not found")
+		} else {
+			hit, path := eng.Search(eng.Entry(fn), eng.Is(seal[0]), eng.SearchOpt{Barrier: eng.Or(handed, eng.StoreToField("LogBuffer.lastFlushTime"))})
+			c.Ob("ORDER-read", eng.FuncName(fn)+" sealed-range-recorded", hit == nil, seal[0].Pos(), "whenever the current buffer is sealed its range is either handed to the flusher or recorded as the last flushed time"+pathNote(c.P, fn, hit, path))
+		}
+	}
 
 	// ---------------------------------------------------------------- (3) SIB-exclusive-resume
 	if fn := c.NeedFunc("weed/util/log_buffer", "(*MemBuffer).locateByTs"); fn != nil {
@@ -211,7 +297,7 @@ func runC22(c *eng.Ctx) {
 			returnsNonNilErr(c, "ORDER-read", "flushed-newer-than-resume", fn, starts, "data newer than the resume point that was already flushed makes the read report resume-from-disk")
 		}
 	}
-	c.Expect("ORDER-read", 5)
+	c.Expect("ORDER-read", 6)
 	_ = fmt.Sprint
 }
 
